@@ -151,7 +151,10 @@ def check_panel(case, ctx):
             D.append((fp - fm) / (2 * s))
         J = (4 * D[1] - D[0]) / 3.
         sc = np.max(np.abs(np.abs(KTref).dot(np.abs(dv)))) or 1.
-        ctx.close('kT.fd', KT.dot(dv), J, 1e-8, bucket=name + '.kT!=dfint', scale=sc)
+        # a difference quotient of fint resolves nothing below the rounding of fint itself, eps |KT| (|c| + |dv|) / step
+        # (very thin plates: membrane terms of opposite sign, each far larger than their sum)
+        fd_floor = 50 * 2.2e-16 * np.max(np.abs(KTref).dot(np.abs(c) + np.abs(dv))) / 0.5
+        ctx.close('kT.fd', KT.dot(dv), J, 1e-8, bucket=name + '.kT!=dfint', scale=sc, atol=fd_floor)
     # 5. closed-path work (exact quadrature only)
     if exact:
         pts = [c]
